@@ -227,7 +227,7 @@ func VerifC16Sync() {
 	pre := verifBytes("pre", 3)       // the history's bytes at lbase-3 .. lbase-1 (older than anything the leader caches)
 	hbase := lbase - int64(len(pre))
 	hist := append(append([]byte{}, pre...), stream...)
-	leaderState := verifChoose("leaderState", 3)
+	leaderState := verifChoose("leaderState", 4) // 3: the leader knows the id but has nothing cached under it yet
 	lc := verifC05Chan(L, 0)
 	// optionally the leader is still under the previous id r0 when the follower shakes hands and
 	// switches to r1 (its source failed over; the history continues) before the follower's next call
@@ -244,6 +244,7 @@ func VerifC16Sync() {
 	case 1: // snapshot only (its log writer has not started yet)
 		snap = verifBytes("lsnap", verifRange("lsnaplen", 1, C+1))
 		verifC16Snapshot(lc, lbase, [][]byte{snap}, len(snap))
+	case 3: // nothing cached yet under the id the leader's input reports
 	default: // snapshot + log
 		snap = verifBytes("lsnap", verifRange("lsnaplen", 1, C+1))
 		verifC16Snapshot(lc, lbase, [][]byte{snap}, len(snap))
@@ -254,7 +255,7 @@ func VerifC16Sync() {
 	} else {
 		collected = false
 	}
-	if leaderState != 1 {
+	if leaderState != 1 && leaderState != 3 {
 		var chunks [][]byte
 		for i := cachedFrom; i < n; {
 			k := C // fixed chunking: what arrives in which write does not matter to the transfer
@@ -275,10 +276,20 @@ func VerifC16Sync() {
 	if leaderState == 1 {
 		leaderRight = lbase
 	}
+	if leaderState == 3 {
+		leaderRight = lbase
+		verifCover(true, "c16.leader-empty")
+	}
 
 	// ---- the follower ----
 	fc := verifC05Chan(L, 0)
 	fstate := verifChoose("followerState", 6)
+	if leaderState == 3 {
+		// an empty leader is judged against followers that hold data of the same history (they are ahead of it
+		// and must be offered leadership); what an empty leader and an empty or foreign follower exchange (CLEAR,
+		// an empty snapshot at offset 0) is outside this check
+		verifAssume(fstate == 1 || fstate == 2)
+	}
 	var fbytes []byte
 	fbase := lbase
 	frun := lid0
@@ -305,7 +316,7 @@ func VerifC16Sync() {
 		fbytes = verifBytes("other", k)
 	default: // same history, but behind everything the leader still has as a log: k bytes that end g bytes
 		// before the leader's snapshot offset (the leader can only answer with its snapshot)
-		verifAssume(leaderState != 0)
+		verifAssume(leaderState == 1 || leaderState == 2)
 		k := verifRange("fbehind", 1, 2)
 		g := verifRange("fgap", 0, 3-k)
 		fbase = lbase - int64(k+g)
@@ -358,7 +369,8 @@ func VerifC16Sync() {
 	// (the number of calls depends on how the leader's late chunk races with the transfer: not observed)
 
 	// ---- what the follower holds now ----
-	sameHistoryAhead := fstate == 2
+	// (with an empty leader every follower that holds data of the same history is ahead of it)
+	sameHistoryAhead := fstate == 2 || (leaderState == 3 && fstate == 1)
 	if sameHistoryAhead && cli.cutCall < 0 {
 		verifAssert(err != nil && errors.Is(err, ErrLeaderTakeover), "C16.follower-ahead-not-offered-leadership")
 	}
